@@ -10,6 +10,14 @@ from .mciipm_block import (M, blk_side, blk_len, blocker_state, finalised_clause
 I8 = 'cardutil.iso8583.'
 
 
+def fld(E, ref, name):
+    """field of a heap object, or None when the (possibly edited) code does not set it"""
+    try:
+        return E.cell(ref).get(name)
+    except Exception:
+        return None
+
+
 def max_len(E):
     """config.config['MAX_VBS_RECORD_LENGTH'] as read from the tree"""
     cfg = E.lookup_global('config', E.program.modules['cardutil.config'])
@@ -307,7 +315,7 @@ def u_r_progress(E):
     E.prove('VbsReader.__next__/within-stream', E.as_int(E.getf(f, 'pos')) <= Sx.n, 'P', 'variant')
 
 
-@unit('VbsReader.__init__+__iter__', props=['C03', 'C05', 'C06'], functions=[M + 'VbsReader.__init__', M + 'VbsReader.__iter__', M + 'Unblock1014.__init__'])
+@unit('VbsReader.__init__+__iter__', props=['C03', 'C05', 'C06', 'C10', 'C09'], functions=[M + 'VbsReader.__init__', M + 'VbsReader.__iter__', M + 'Unblock1014.__init__'])
 def u_r_init(E):
     C = E.fresh_seq('bytes', 'C')
     for blocked in (False, True):
@@ -326,6 +334,16 @@ def u_r_init(E):
         E.prove(tag + '/first-record-is-number-1', E.as_int(E.getattr_value(rd, 'record_number')) == 1, 'P')
         it = E.method(rd, '__iter__')
         E.prove(tag + '/iter-returns-self', z3.BoolVal(isinstance(it, VRef) and it.oid == rd.oid), 'I')
+    # starting a for-loop on a reader that has already delivered records must not disturb its position or its record counter
+    rd2, f2, S2, q2, k2 = reader_state(E)
+    before = state_fingerprint(E, {'reader': rd2, 'file': f2})
+    E.method(rd2, '__iter__')
+    after = state_fingerprint(E, {'reader': rd2, 'file': f2})
+    for key in sorted(set(before) | set(after)):
+        if key not in before or key not in after:
+            # a new attribute is not, by itself, a change of the reader's observable position
+            continue
+        E.prove_value_eq('VbsReader.__iter__/leaves-state-unchanged/%s' % key, after[key], before[key], 'P')
 
 
 def install_unblocker_contract(E):
@@ -528,9 +546,11 @@ def u_ipm_init(E):
     enc = E.fresh_seq('str', 'enc')
     cfg = E.new_dict({})
     rd = E.instantiate(E.program.classes[M + 'IpmReader'], [f], {'encoding': enc, 'iso_config': cfg, 'blocked': FALSE})
-    E.prove('IpmReader.__init__/encoding-kept', z3.BoolVal(E.getf(rd, 'encoding') is enc), 'P')
-    E.prove('IpmReader.__init__/config-kept', z3.BoolVal(isinstance(E.getf(rd, 'iso_config'), VRef) and E.getf(rd, 'iso_config').oid == cfg.oid), 'P')
-    E.prove('IpmReader.__init__/source', z3.BoolVal(E.getf(rd, 'vbs_data').oid == f.oid), 'P')
+    # what matters is what __next__ hands to loads (checked in IpmReader.__next__/contract); here: the constructor keeps its arguments somewhere
+    kept = [v for k, v in E.cell(rd).items() if isinstance(v, V)]
+    E.prove('IpmReader.__init__/encoding-kept', z3.BoolVal(any(v is enc for v in kept)), 'P')
+    E.prove('IpmReader.__init__/config-kept', z3.BoolVal(any(isinstance(v, VRef) and v.oid == cfg.oid for v in kept)), 'P')
+    E.prove('IpmReader.__init__/source', z3.BoolVal(isinstance(fld(E, rd, 'vbs_data'), VRef) and fld(E, rd, 'vbs_data').oid == f.oid), 'P')
     E.prove('IpmReader.__init__/first-record-is-number-1', E.as_int(E.getattr_value(rd, 'record_number')) == 1, 'P')
 
 
@@ -561,10 +581,20 @@ def u_ipmw_write(E):
     # constructor keeps its arguments
     f2 = E.new_file(seq_lit('bytes', b''), 0)
     w2 = E.instantiate(E.program.classes[M + 'IpmWriter'], [f2], {'encoding': enc, 'iso_config': cfg, 'blocked': TRUE})
-    E.prove('IpmWriter.__init__/encoding-kept', z3.BoolVal(E.getf(w2, 'encoding') is enc), 'P')
-    E.prove('IpmWriter.__init__/config-kept', z3.BoolVal(E.getf(w2, 'iso_config').oid == cfg.oid), 'P')
-    bl = E.getf(w2, 'out_file')
-    E.prove('IpmWriter.__init__/blocked-sink', z3.BoolVal(E.kind_of(bl) == 'obj'), 'P')
+    kept = [v for k, v in E.cell(w2).items() if isinstance(v, V)]
+    E.prove('IpmWriter.__init__/encoding-kept', z3.BoolVal(any(v is enc for v in kept)), 'P')
+    E.prove('IpmWriter.__init__/config-kept', z3.BoolVal(any(isinstance(v, VRef) and v.oid == cfg.oid for v in kept)), 'P')
+    bl = fld(E, w2, 'out_file')
+    E.prove('IpmWriter.__init__/blocked-sink', z3.BoolVal(isinstance(bl, VRef) and E.kind_of(bl) == 'obj'), 'P')
+    # a writer built by the real constructor with a custom configuration encodes with THAT configuration
+    install_dumps_contract(E, rec)
+    f3 = E.new_file(seq_lit('bytes', b''), 0)
+    w3 = E.instantiate(E.program.classes[M + 'IpmWriter'], [f3], {'encoding': enc, 'iso_config': cfg})
+    E.ghost.pop('dumps_args', None)
+    E.method(w3, 'write', msg)
+    a3, k3 = E.ghost.get('dumps_args', ([], {}))
+    E.prove('IpmWriter(real constructor).write/uses-the-configuration-it-was-given', z3.BoolVal(isinstance(k3.get('iso_config'), VRef) and k3['iso_config'].oid == cfg.oid), 'P')
+    E.prove('IpmWriter(real constructor).write/uses-the-encoding-it-was-given', z3.BoolVal(k3.get('encoding') is enc), 'P')
 
 
 # ---------------------------------------------------------------- instance isolation (C06) - frames
